@@ -29,7 +29,22 @@ LEVEL_NOTE = ("Trusted: Lean kernel; axioms propext/Classical.choice/Quot.sound;
               "the theorem carries that as an explicit extra conjunct.")
 TECHNIQUE = "Lean 4 proof over an executable model + exhaustive-small/random differential correspondence with the Go analysis + reference validator"
 OBLIGATIONS = [
+    "Grog.C11.accepts_iff_valid",
     "Grog.C11.accepts_implies_valid",
+    "Grog.C11.valid_implies_accepts",
+    "Grog.C11.rejects_iff_defect",
+    "Grog.C11.reject_runs_nothing",
+    "Grog.C11.executes_iff",
+    "Grog.C11.findCycle_sound",
+    "Grog.C11.findCycle_complete",
+    "Grog.C11.ancestorSet_eq_reach",
+    "Grog.C11.ordered_iff",
+    "Grog.C11.conflict_iff",
+    "Grog.C11.clean_normal_form",
+    "Grog.C11.within_iff_prefix",
+    "Grog.C11.old_accepts_escaping_dir",
+    "Grog.C11.old_rejects_self_overlap",
+    "Grog.C11.old_accepts_dot_overlap",
 ]
 ASSUMPTIONS = [
     "workspace root is an absolute path (config.MustFindWorkspaceRoot)",
